@@ -22,6 +22,10 @@ def load_known():
     return out
 
 
+EXTRA = []     # summaries of additional configuration passes (thorough tier), merged into the evidence
+DRY = [False]  # a dry pass computes its verdict but leaves evidence and violation files alone
+
+
 class Check:
     """Collects rule instances, findings and obligations for one property run."""
 
@@ -96,8 +100,19 @@ class Check:
                 knownhits.append((key, where, k.get("what_fails", msg)))
             else:
                 viol.append((rule, key, where, msg, detail))
+        if DRY[0]:
+            # floors and anchors are calibrated on configuration A (which contains src/ffi); the extra
+            # pass only looks for rule findings that exist in the other configuration alone
+            self.closed_fail = []
         for cf in self.closed_fail:
             viol.append(("fail-closed", "fail-closed/" + re.sub(r"[^A-Za-z0-9_.:<>-]+", "_", cf)[:80], None, cf, None))
+        if DRY[0]:
+            n = sum(r["instances"] for r in self.rules.values())
+            EXTRA.append({"configuration": list(self.configs), "rule_instances": n, "known_findings": len(knownhits),
+                          "violations": [{"rule": v[0], "key": v[1], "where": v[2], "message": v[3]} for v in viol]})
+            for (rule, key, where, msg, detail) in viol:
+                print("  [extra configuration] rule=%s key=%s at %s: %s" % (rule, key, where, msg))
+            return 1 if viol else 0
         os.makedirs(os.path.join(EVID, "violations"), exist_ok=True)
         # clean old violation files of this property
         vdir = os.path.join(EVID, "violations")
@@ -156,6 +171,7 @@ class Check:
             "clauses_not_decided": self.not_decided,
             "notes": self.notes,
             "fail_closed": self.closed_fail,
+            "additional_configurations": list(EXTRA),
             "exhaustive": True,
         }
         return {
